@@ -2278,3 +2278,271 @@ Proof.
          [[mkPart 0 12 1]; [mkPart 0 5 1]; [mkPart 60 70 1]], 100.
   split; [apply perm_swap|]. repeat split; reflexivity.
 Qed.
+
+(* ====================================================================================
+   Fourth pass: location_bridges_origin(allow_reversing=True), offset_location on a ring
+   (transcription order; the two recorded finding classes)
+   ==================================================================================== *)
+
+(* ---------- lstrand / is_compound / bridges under reversal ---------- *)
+Lemma forallb_rev {A} (f : A -> bool) l : forallb f (rev l) = forallb f l.
+Proof.
+  induction l as [|x l IH]; [reflexivity|]. simpl. rewrite forallb_app, IH. simpl.
+  rewrite andb_true_r. apply andb_comm.
+Qed.
+
+Lemma is_compound_rev (l : loc) : is_compound (rev l) = is_compound l.
+Proof.
+  assert (H : forall l : loc, is_compound l = (2 <=? Z.of_nat (length l))).
+  { intros [|a [|b r]]; try reflexivity. cbn [is_compound length]. lia. }
+  rewrite !H, rev_length. reflexivity.
+Qed.
+
+(* all parts on the reverse strand *)
+Lemma lstrand_m1 (l : loc) : lstrand l = -1 -> forallb (fun q => pst q =? -1) l = true.
+Proof.
+  destruct l as [|p r]; [discriminate|]. unfold lstrand.
+  destruct (forallb (fun q => pst q =? pst p) r) eqn:E; [|discriminate].
+  intros Hp. cbn [forallb]. rewrite Hp in E. rewrite E. lia.
+Qed.
+
+Lemma all_m1_lstrand (l : loc) : l <> [] -> forallb (fun q => pst q =? -1) l = true -> lstrand l = -1.
+Proof.
+  destruct l as [|p r]; [congruence|]. intros _ H. cbn [forallb] in H.
+  apply andb_prop in H as [Hp Hr]. unfold lstrand.
+  assert (E : forallb (fun q => pst q =? pst p) r = true).
+  { rewrite forallb_forall in *. intros q Hq. specialize (Hr q Hq). lia. }
+  rewrite E. lia.
+Qed.
+
+Lemma lstrand_rev_m1 (l : loc) : lstrand l = -1 -> lstrand (rev l) = -1.
+Proof.
+  intros H. apply all_m1_lstrand.
+  - destruct l; [discriminate|]. simpl. intros E. apply app_eq_nil in E as [_ E]. discriminate.
+  - rewrite forallb_rev. apply lstrand_m1. assumption.
+Qed.
+
+(* ---------- location_bridges_origin(location, allow_reversing=True) ---------- *)
+Lemma bridges_reversing_answer l :
+  fst (bridges_reversing l) = bridges l && negb ((lstrand l =? -1) && negb (bridges (rev l))).
+Proof.
+  unfold bridges_reversing, bridges. rewrite is_compound_rev.
+  destruct (is_compound l) eqn:Ec; [|reflexivity].
+  destruct (lstrand l =? -1) eqn:Em.
+  - assert (Hm : lstrand l = -1) by lia. rewrite (lstrand_rev_m1 l Hm). rewrite Hm.
+    change ((-1 =? 1) || (-1 =? -1)) with true. change (-1 =? -1) with true. cbn iota.
+    destruct (check_order (-1) l); destruct (check_order (-1) (rev l)); reflexivity.
+  - destruct ((lstrand l =? 1) || false) eqn:Es.
+    + destruct (check_order (lstrand l) l); reflexivity.
+    + cbn [fst andb negb]. rewrite andb_true_r. reflexivity.
+Qed.
+
+(* reported as bridging: the argument is left exactly as it was *)
+Lemma bridges_reversing_true_keeps l : fst (bridges_reversing l) = true -> snd (bridges_reversing l) = l.
+Proof.
+  unfold bridges_reversing.
+  destruct (is_compound l); [|reflexivity].
+  destruct ((lstrand l =? 1) || (lstrand l =? -1)); [|reflexivity].
+  destruct (check_order (lstrand l) l); [|reflexivity].
+  destruct ((lstrand l =? -1) && negb (check_order (lstrand l) (rev l))); [discriminate|reflexivity].
+Qed.
+
+(* the argument afterwards is the argument or its reversal, and is then not bridging *)
+Lemma bridges_reversing_arg l :
+  snd (bridges_reversing l) = l \/
+  (snd (bridges_reversing l) = rev l /\ lstrand l = -1 /\ fst (bridges_reversing l) = false /\
+   bridges (rev l) = false).
+Proof.
+  unfold bridges_reversing.
+  destruct (is_compound l) eqn:Ec; [|left; reflexivity].
+  destruct ((lstrand l =? 1) || (lstrand l =? -1)) eqn:Es; [|left; reflexivity].
+  destruct (check_order (lstrand l) l); [|left; reflexivity].
+  destruct ((lstrand l =? -1) && negb (check_order (lstrand l) (rev l))) eqn:E; [|left; reflexivity].
+  right. apply andb_prop in E as [E1 E2]. assert (Hm : lstrand l = -1) by lia.
+  repeat split; try assumption.
+  unfold bridges. rewrite is_compound_rev, Ec, (lstrand_rev_m1 l Hm).
+  change ((-1 =? 1) || (-1 =? -1)) with true. cbn iota. rewrite Hm in E2.
+  destruct (check_order (-1) (rev l)); [discriminate|reflexivity].
+Qed.
+
+Lemma loc_eqb_refl (l : loc) : loc_eqb l l = true.
+Proof.
+  induction l as [|p l IH]; [reflexivity|]. cbn [loc_eqb list_eqb]. fold (loc_eqb l l). rewrite IH.
+  unfold part_eqb. lia.
+Qed.
+
+(* the model satisfies specification 119 *)
+Lemma bridges_reversing_spec l :
+  check_bridges_reversing l (fst (bridges_reversing l)) (snd (bridges_reversing l)) = 0.
+Proof.
+  unfold check_bridges_reversing. rewrite <- bridges_reversing_answer, eqb_reflx. cbn [negb].
+  destruct (fst (bridges_reversing l)) eqn:Ea.
+  - rewrite (bridges_reversing_true_keeps l Ea), loc_eqb_refl. reflexivity.
+  - destruct (bridges_reversing_arg l) as [H|(H1 & H2 & _ & H4)].
+    + rewrite H, loc_eqb_refl. reflexivity.
+    + rewrite H1. destruct (loc_eqb (rev l) l); [reflexivity|].
+      rewrite loc_eqb_refl, H4. replace (lstrand l =? -1) with true by lia. reflexivity.
+Qed.
+
+(* asking twice: the same answer, and nothing changes any more *)
+Lemma bridges_reversing_twice l :
+  bridges_reversing (snd (bridges_reversing l)) = bridges_reversing l.
+Proof.
+  destruct (bridges_reversing_arg l) as [H|(H1 & H2 & H3 & H4)].
+  - rewrite H. reflexivity.
+  - rewrite H1. rewrite (surjective_pairing (bridges_reversing l)), H1, H3.
+    unfold bridges_reversing. unfold bridges in H4.
+    destruct (is_compound (rev l)); [|reflexivity].
+    rewrite (lstrand_rev_m1 l H2) in *. change ((-1 =? 1) || (-1 =? -1)) with true in *. cbn iota in *.
+    rewrite H4. reflexivity.
+Qed.
+
+(* soundness of specification 119 *)
+Lemma check_bridges_reversing_sound a ans a' : check_bridges_reversing a ans a' = 0 ->
+  (ans = true -> a' = a) /\
+  (a' = a \/ (a' = rev a /\ lstrand a = -1 /\ bridges a' = false)) /\
+  ans = fst (bridges_reversing a).
+Proof.
+  unfold check_bridges_reversing. rewrite <- bridges_reversing_answer.
+  destruct (Bool.eqb ans (fst (bridges_reversing a))) eqn:E; cbn [negb]; [|discriminate].
+  apply eqb_prop in E. intros H. split; [|split; [|assumption]].
+  - intros Ht. rewrite Ht in H. destruct (loc_eqb a' a) eqn:E1; [|discriminate].
+    apply loc_eqb_eq. assumption.
+  - destruct ans.
+    + destruct (loc_eqb a' a) eqn:E1; [|discriminate]. left. apply loc_eqb_eq. assumption.
+    + destruct (loc_eqb a' a) eqn:E1; [left; apply loc_eqb_eq; assumption|].
+      destruct (loc_eqb a' (rev a)) eqn:E2; [|discriminate].
+      destruct (lstrand a =? -1) eqn:E3; [|discriminate].
+      destruct (bridges a') eqn:E4; [discriminate|].
+      right. repeat split; [apply loc_eqb_eq; assumption|lia].
+Qed.
+
+(* ---------- offset_location on a ring: the two recorded finding classes ---------- *)
+Lemma offset_merge_drops_part_refuted :
+  exists a off N r,
+    pre_offset a (Some N) = true /\ offset_location a off (Some N) = Ok r /\
+    llen r <> llen a /\ in_loc 15 a = true /\ in_loc ((15 + off) mod N) r = false /\
+    check_offset_ring N a off (Ok r) = 4 /\ offset_class a off (Some N) = 1.
+Proof.
+  exists [mkPart 15 20 1; mkPart 0 5 1; mkPart 5 9 1], 5, 20, [mkPart 5 14 1].
+  vm_compute. repeat split; congruence.
+Qed.
+
+Lemma offset_reverse_wrap_order_refuted :
+  exists p off N r,
+    pst p = -1 /\ pre_offset [p] (Some N) = true /\ offset_location [p] off (Some N) = Ok r /\
+    rotated_bases N off r [p] = true /\
+    tx_bases r <> map (fun x => (x + off) mod N) (tx_bases [p]) /\
+    bridges r = false /\ connect_locations [r] (Some N) = Ok [mkPart 0 N (-1)] /\
+    check_offset_ring N [p] off (Ok r) = 7 /\ offset_class [p] off (Some N) = 2.
+Proof.
+  exists (mkPart 13 18 (-1)), 5, 20, [mkPart 18 20 (-1); mkPart 0 3 (-1)].
+  vm_compute. repeat split; congruence.
+Qed.
+
+(* soundness of the transcription-order clause of specification 107 *)
+Lemma check_offset_ring_tx_sound N a off out : check_offset_ring N a off out = 0 -> llen a <> N ->
+  exists r, out = Ok r /\ tx_bases r = map (fun x => (x + off) mod N) (tx_bases a).
+Proof.
+  unfold check_offset_ring. destruct out as [r|k]; [|discriminate].
+  destruct (wf_locb N r); cbn [negb]; [|discriminate].
+  destruct (disjoint_parts r); cbn [negb]; [|discriminate].
+  destruct (llen r =? llen a); cbn [negb]; [|discriminate].
+  destruct (same_strands r a); cbn [negb]; [|discriminate].
+  destruct (rotated_bases N off r a); cbn [negb]; [|discriminate].
+  intros H Hn. replace (llen a =? N) with false in H by lia. cbn [negb andb] in H.
+  destruct (rotated_tx N off r a) eqn:E; [|discriminate].
+  exists r. split; [reflexivity|]. apply list_eqb_Z_eq. exact E.
+Qed.
+
+
+(* ---------- the final merge loop of offset_location (merge_adjacent) ----------
+   Guarded: when no touching pair of raw parts directly follows a touching pair, the loop keeps exactly the
+   bases and the length (every merged part is rebuilt from a previous part that is still unmerged).  Without
+   the guard: offset_merge_drops_part_refuted. *)
+Lemma existsb_rev {A} (f : A -> bool) l : existsb f (rev l) = existsb f l.
+Proof.
+  induction l as [|x l IH]; [reflexivity|]. simpl. rewrite existsb_app, IH. simpl.
+  rewrite orb_false_r. apply orb_comm.
+Qed.
+
+Lemma in_loc_app x (a b : loc) : in_loc x (a ++ b) = in_loc x a || in_loc x b.
+Proof. unfold in_loc. apply existsb_app. Qed.
+
+Lemma in_loc_rev x (a : loc) : in_loc x (rev a) = in_loc x a.
+Proof. unfold in_loc. apply existsb_rev. Qed.
+
+Lemma llen_app (a b : loc) : llen (a ++ b) = llen a + llen b.
+Proof. induction a as [|p a IH]; [reflexivity|]. cbn [app llen fold_right] in *. unfold llen in *. simpl. lia. Qed.
+
+Lemma llen_rev (a : loc) : llen (rev a) = llen a.
+Proof.
+  induction a as [|p a IH]; [reflexivity|]. simpl. rewrite llen_app, IH. unfold llen. simpl. lia.
+Qed.
+
+Definition next_free (prev : part) (l : list part) : Prop :=
+  match l with p :: _ => pe prev <> ps p | [] => True end.
+
+Lemma merge_adjacent_inv st : forall l prev last acc,
+  Forall (fun q => ps q <= pe q /\ pst q = st) (prev :: l) ->
+  ps last <= pe last -> pe last = pe prev ->
+  (last = prev \/ next_free prev l) ->
+  touching_run (prev :: l) = false ->
+  exists r, merge_adjacent prev (last :: acc) l = Ok r /\
+    (forall x, in_loc x r = in_loc x (rev (last :: acc) ++ l)) /\
+    llen r = llen (rev (last :: acc)) + llen l.
+Proof.
+  induction l as [|p l IH]; intros prev last acc Hall Hlast Hpe Hnext Hrun.
+  - exists (rev (last :: acc)). cbn [merge_adjacent]. split; [reflexivity|]. split.
+    + intros x. rewrite app_nil_r. reflexivity.
+    + unfold llen at 3. simpl. lia.
+  - cbn [merge_adjacent].
+    assert (Hprev : ps prev <= pe prev /\ pst prev = st) by (inversion Hall; assumption).
+    assert (Hall' : Forall (fun q => ps q <= pe q /\ pst q = st) (p :: l)) by (inversion Hall; assumption).
+    assert (Hp : ps p <= pe p /\ pst p = st) by (inversion Hall'; assumption).
+    assert (Hrun' : touching_run (p :: l) = false).
+    { destruct l as [|q l']; [reflexivity|]. cbn [touching_run] in Hrun.
+      apply orb_false_iff in Hrun as [_ Hrun]. exact Hrun. }
+    destruct (pe prev =? ps p) eqn:Et.
+    + assert (Heq : last = prev).
+      { destruct Hnext as [H|H]; [assumption|]. cbn [next_free] in H. lia. }
+      subst last.
+      replace (pst prev =? pst p) with true by lia. cbn [negb].
+      destruct (IH p (mkPart (ps prev) (pe p) (pst p)) acc Hall') as [r [Hr [Hb Hl]]].
+      * cbn [ps pe]. lia.
+      * reflexivity.
+      * right. destruct l as [|q l']; [exact I|]. cbn [next_free]. cbn [touching_run] in Hrun.
+        apply orb_false_iff in Hrun as [Hrun _]. lia.
+      * exact Hrun'.
+      * exists r. split; [exact Hr|]. split.
+        -- intros x. rewrite Hb. cbn [rev]. rewrite !in_loc_app. cbn [in_loc existsb].
+           unfold in_loc. rewrite !orb_false_r. unfold in_part. cbn [ps pe].
+           destruct (existsb (fun p0 => (ps p0 <=? x) && (x <? pe p0)) (rev acc));
+             destruct (existsb (fun p0 => (ps p0 <=? x) && (x <? pe p0)) l); lia.
+        -- rewrite Hl. cbn [rev]. rewrite !llen_app. unfold llen. cbn [fold_right ps pe]. lia.
+    + destruct (IH p p (last :: acc) Hall') as [r [Hr [Hb Hl]]].
+      * lia.
+      * reflexivity.
+      * left. reflexivity.
+      * exact Hrun'.
+      * exists r. split; [exact Hr|]. split.
+        -- intros x. rewrite Hb. cbn [rev]. rewrite <- !app_assoc. reflexivity.
+        -- rewrite Hl. cbn [rev]. rewrite !llen_app. unfold llen. cbn [fold_right]. lia.
+Qed.
+
+Lemma merge_adjacent_guarded st p0 l :
+  Forall (fun q => ps q <= pe q /\ pst q = st) (p0 :: l) ->
+  touching_run (p0 :: l) = false ->
+  exists r, merge_adjacent p0 [p0] l = Ok r /\
+    (forall x, in_loc x r = in_loc x (p0 :: l)) /\ llen r = llen (p0 :: l).
+Proof.
+  intros Hall Hrun.
+  destruct (merge_adjacent_inv st l p0 p0 [] Hall) as [r [Hr [Hb Hl]]].
+  - inversion Hall; lia.
+  - reflexivity.
+  - left. reflexivity.
+  - exact Hrun.
+  - exists r. split; [exact Hr|]. split.
+    + intros x. rewrite Hb. reflexivity.
+    + rewrite Hl. unfold llen. simpl. lia.
+Qed.
